@@ -243,15 +243,17 @@ Proof. left. reflexivity. Qed.
 (* 1 + 3b. [chunk_bytes] and [abs]: read-only, within the reachable cells                     *)
 (* ------------------------------------------------------------------------------------------ *)
 
-Lemma chunk_bytes_roP h a : roP h (reachh h a) (chunk_bytes a).
+Lemma chunk_bytes_roP h tx a : roP h (reachh h a) (chunk_bytes tx a).
 Proof.
   unfold chunk_bytes. apply roP_rd_bind; [apply reach_self|].
   intros rc n Hn. cbn [snd].
   destruct n as [neg w v|w b|v|text data bytes|text hdr arr cap chunks|indef data al elems
                 |indef data al pairs|v child]; try apply roP_fail.
-  apply roP_bind; [|intros _; apply roP_ret].
-  apply roP_if; [apply roP_ret|]. apply roP_touch. intros d ->.
-  eapply reach_block; [apply reach_self|exact Hn|apply in_opt_list].
+  - destruct (Bool.eqb text tx); [|apply roP_fail].
+    apply roP_bind; [|intros _; apply roP_ret].
+    apply roP_if; [apply roP_ret|]. apply roP_touch. intros d ->.
+    eapply reach_block; [apply reach_self|exact Hn|apply in_opt_list].
+  - destruct (Bool.eqb text tx); apply roP_fail.
 Qed.
 
 Lemma abs_roP h : forall fuel a, roP h (reachh h a) (abs fuel a).
@@ -297,7 +299,7 @@ Proof.
       eapply roP_weaken; [|apply IH]. apply Hk. left. reflexivity.
 Qed.
 
-Lemma chunk_bytes_readonly a : readonly (chunk_bytes a).
+Lemma chunk_bytes_readonly tx a : readonly (chunk_bytes tx a).
 Proof. apply roP_readonly. intros h. eexists. apply chunk_bytes_roP. Qed.
 
 Lemma abs_readonly_pred fuel a : readonly (abs fuel a).
@@ -491,16 +493,18 @@ Proof.
     apply frame_ret.
 Qed.
 
-Lemma chunk_bytes_frame h1 h2 a :
-  (forall b, reachh h1 a b -> h1 b = h2 b) -> frame h1 h2 (chunk_bytes a).
+Lemma chunk_bytes_frame h1 h2 tx a :
+  (forall b, reachh h1 a b -> h1 b = h2 b) -> frame h1 h2 (chunk_bytes tx a).
 Proof.
   intros Hag. unfold chunk_bytes. apply frame_rd_bind; [apply Hag, reach_self|].
   intros rc n Hn. cbn [snd].
   destruct n as [neg w v|w b|v|text data bytes|text hdr arr cap chunks|indef data al elems
                 |indef data al pairs|v child]; try apply frame_fail.
-  apply frame_bind; [|intros _; apply frame_ret].
-  apply frame_if; [apply frame_ret|]. apply frame_touch. intros d ->. apply Hag.
-  eapply reach_block; [apply reach_self|exact Hn|apply in_opt_list].
+  - destruct (Bool.eqb text tx); [|apply frame_fail].
+    apply frame_bind; [|intros _; apply frame_ret].
+    apply frame_if; [apply frame_ret|]. apply frame_touch. intros d ->. apply Hag.
+    eapply reach_block; [apply reach_self|exact Hn|apply in_opt_list].
+  - destruct (Bool.eqb text tx); apply frame_fail.
 Qed.
 
 Lemma abs_frame h1 h2 : forall fuel a,
